@@ -33,6 +33,10 @@ pub struct Case {
     pub wrapped: KeySeed,
     pub wrapping: KeySeed,
     pub password: BytesSpec,
+    /// v1 / v3: force the derived AES-CTR counter block (paseto_verif hook) for wrap AND unwrap,
+    /// so that "all values of the internal randomness" includes blocks whose counter carries
+    #[serde(default)]
+    pub iv: Option<crate::props::c03::NonceKind>,
 }
 
 pub fn params_strategy<B: Backend>(tier: Tier) -> BoxedStrategy<PwParams> {
@@ -63,8 +67,14 @@ fn strat<B: Backend>(tier: Tier, which: u8) -> BoxedStrategy<Case> {
             }
         }
     };
-    (op, any::<bool>(), prop::bool::weighted(0.2), gens::key_seed(), gens::key_seed(), gens::password())
-        .prop_map(|(op, secret, key_random, wrapped, wrapping, password)| Case {
+    let iv = if B::VER.nist() {
+        prop_oneof![3 => Just(None), 2 => crate::props::c03::nonce_kind().prop_map(Some)].boxed()
+    } else {
+        Just(None).boxed()
+    };
+    (op, any::<bool>(), prop::bool::weighted(0.2), gens::key_seed(), gens::key_seed(), gens::password(), iv)
+        .prop_map(|(op, secret, key_random, wrapped, wrapping, password, iv)| Case {
+            iv,
             secret: secret && !matches!(op, Op::Pke { .. }),
             key_random: key_random && !(B::VER == Ver::V1 && secret),
             op,
@@ -157,34 +167,37 @@ where
     Ok(())
 }
 
+/// v1 PKE: construct the rare RSA-KEM draw instead of waiting for it.  Picks a ciphertext c with
+/// `aim` leading zero bytes, takes r = c^d mod n, keeps it if the library's bit masking leaves it
+/// unchanged, and scripts it as the next 512-byte draw.  Returns the number of leading zero bytes
+/// aimed (0 if no candidate was found).
+pub fn script_leading_zero_c(seed: u64, aim: u8, sk_bytes: &[u8], pk_bytes: &[u8]) -> Result<u8, Fail> {
+    let rp = model::rsa_pub_from_spki(pk_bytes).map_err(|e| Fail::new("HARNESS/rsa-pub", e))?;
+    for t in 0..64u64 {
+        let mut cbytes = rng::det_bytes(seed, 0xc0de + t, 512);
+        for b in cbytes.iter_mut().take(aim as usize) {
+            *b = 0;
+        }
+        if cbytes[aim as usize] == 0 {
+            cbytes[aim as usize] = 1;
+        }
+        let r = model::rsa_kem_r_fast(sk_bytes, &cbytes).map_err(|e| Fail::new("HARNESS/rsa-crt", e))?;
+        if r[0] & 0xc0 == 0x40 {
+            if model::rsa_kem_c(&rp, &r) != cbytes {
+                return Err(Fail::new("HARNESS/rsa-crt-check", "r^e != c"));
+            }
+            rng::script(vec![r]);
+            return Ok(aim);
+        }
+    }
+    Ok(0)
+}
+
 fn pke<B: Backend>(acc: &mut Acc, c: &Case, aim: u8, key: LocalKeyOf<B>) -> R {
     let name = B::NAME;
     let orig = key_bytes(&key);
     let (sk, pk, sk_bytes, pk_bytes) = pke_pair::<B>(&c.wrapping);
-    let mut aimed = 0u8;
-    if B::VER == Ver::V1 && B::GETRANDOM && aim > 0 {
-        // construct the rare draw instead of waiting for it: pick c with `aim` leading zero
-        // bytes, take r = c^d mod n, keep it if the library's bit masking leaves it unchanged
-        let rp = model::rsa_pub_from_spki(&pk_bytes).map_err(|e| Fail::new("HARNESS/rsa-pub", e))?;
-        for t in 0..64u64 {
-            let mut cbytes = rng::det_bytes(hash_of(&c.wrapped), 0xc0de + t, 512);
-            for b in cbytes.iter_mut().take(aim as usize) {
-                *b = 0;
-            }
-            if cbytes[aim as usize] == 0 {
-                cbytes[aim as usize] = 1;
-            }
-            let r = model::rsa_kem_r_fast(&sk_bytes, &cbytes).map_err(|e| Fail::new("HARNESS/rsa-crt", e))?;
-            if r[0] & 0xc0 == 0x40 {
-                if model::rsa_kem_c(&rp, &r) != cbytes {
-                    return Err(Fail::new("HARNESS/rsa-crt-check", "r^e != c"));
-                }
-                rng::script(vec![r]);
-                aimed = aim;
-                break;
-            }
-        }
-    }
+    let aimed = if B::VER == Ver::V1 && B::GETRANDOM && aim > 0 { script_leading_zero_c(hash_of(&c.wrapped), aim, &sk_bytes, &pk_bytes)? } else { 0 };
     rng::begin_op();
     let sealed = key.seal(&pk);
     rng::end_op();
@@ -226,6 +239,14 @@ fn pke<B: Backend>(acc: &mut Acc, c: &Case, aim: u8, key: LocalKeyOf<B>) -> R {
 
 pub fn run_case<B: Backend>(c: &Case, acc: &mut Acc) -> R {
     rng::reseed_case(hash_of(&(&c.wrapped, &c.wrapping, &c.password)));
+    let _g = c.iv.as_ref().filter(|_| B::VER.nist()).map(|k| {
+        if k.is_wrap() {
+            acc.class("forced-counter-block:carry");
+        } else {
+            acc.class("forced-counter-block:other");
+        }
+        crate::props::c03::IvGuard::<B>::new(k.bytes(16).try_into().unwrap())
+    });
     let opname = match &c.op {
         Op::Pie => "pie",
         Op::Pbkw(_) => "pbkw",
@@ -312,6 +333,7 @@ fn subs_for<B: Backend>(out: &mut Vec<SubCheck>) {
                 wrapped: wrapped.clone(),
                 wrapping: wrapped,
                 password,
+                iv: None,
             })
         },
         |c: &Case, acc: &mut Acc| {
@@ -335,6 +357,7 @@ fn subs_for<B: Backend>(out: &mut Vec<SubCheck>) {
                 wrapped: wrapped.clone(),
                 wrapping: wrapped,
                 password,
+                iv: None,
             })
         },
         |c: &Case, acc: &mut Acc| run_case::<B>(c, acc),
@@ -347,7 +370,7 @@ pub fn def() -> PropertyDef {
     PropertyDef {
         id: "C05",
         level: "exploration",
-        rule: "proptest cases (back end x {PIE, PBKW, PKE} x wrapped key {local, secret; parsed, random()} x wrapping key / password (any bytes incl. empty) / PBKW parameters (cheapest, random within budget, default, and a few high-cost ones: > 10^6 PBKDF2 iterations / 64-192 MiB Argon2id) x recipient pair; v1 RSA-KEM draw scripted so that the ciphertext has 1-2 leading zero bytes); oracle = wrap ok, own text parses and re-serialises, unwrap returns the same key bytes, decoded length equals the format's fixed length; non-trivial iff non-default parameters, secret key payload, constructed draw, or parsed key",
+        rule: "proptest cases (back end x {PIE, PBKW, PKE} x wrapped key {local, secret; parsed, random()} x wrapping key / password (any bytes incl. empty) / PBKW parameters (cheapest, random within budget, default, and a few high-cost ones: > 10^6 PBKDF2 iterations / 64-192 MiB Argon2id) x recipient pair; v1 RSA-KEM draw scripted so that the ciphertext has 1-2 leading zero bytes; v1/v3 derived AES-CTR counter block forced (hook) to values whose counter carries past 64 / 128 bits, for wrap and unwrap alike); oracle = wrap ok, own text parses and re-serialises, unwrap returns the same key bytes, decoded length equals the format's fixed length; non-trivial iff non-default parameters, secret key payload, constructed draw, or parsed key",
         assumptions: vec![
             "PBKW parameters are bounded (<= 4 MiB / 3 passes / 10000 iterations) except the few default-cost cases",
             "v1 keys come from a committed pool of RSA-2048/4096 keys",
